@@ -272,6 +272,25 @@ PROPS["C16"] = {
     },
 }
 
+PROPS["C08"] = {
+    "builds": ["chk", "rel"],
+    "rule": ("seeded cases: reference dates (month ends 31st, Feb 29, 28..30th, the C04 hostile-date generator incl. both limits) x durations mixing calendar and time units, both signs "
+             "(the shapes the property names: 11 months + 15..30 days, months + days, weeks + days, whole days near month/year lengths, large years; time parts of 0, hours up to 100, "
+             "11..48 h with 29..31/59 min, sub-second mixes); per case four (largestUnit >= smallestUnit, increment valid for the pair, one of nine modes) rounding requests, two "
+             "total() units (one of all ten, one calendar unit) and one compare() against a second duration. Each result is compared with refmodel::relround (target = date + duration, "
+             "DifferenceISODateTime, calendar-unit bracket with exact rational progress, day/time rounding, bubbling, final balance), the negated duration with the mirrored mode as "
+             "well; laws on the implementation's own output: sign-uniform, and for anchors up to the 28th without weeks re-measuring anchor -> anchor + result returns the result. "
+             "non-trivial = rounding changed the duration (round) or the total is not an integer (total); bubbled/balanced-up cases counted and required > 0"),
+    "assumptions": ["refmodel::relround states the specification's DifferencePlainDateTimeWithRounding / TotalRelativeDuration over refmodel::date with exact rationals",
+                    "cases where the specification's own bracket assertion fails (leap-day anchors: destination beyond the constrained end) or a bracket end leaves the date range are undecided (counted)",
+                    "total() is judged to 2 ulp of the exact rational (clause C08.total_exact separates precision from logic errors)"],
+    "manifest": {
+        "technique": "runtime monitoring: exact-rational add-and-remeasure reference model plus balance/sign laws over observed Duration round/total/compare calls relative to a plain date, two builds",
+        "text": "Every observed Duration::round / total / compare relative to a PlainDate is compared with an exact add-and-remeasure model (calendar-unit brackets with rational progress, carrying of filled units, exact totals) for seeded durations, anchors (month ends, leap days, limits) and option combinations; sign-uniformity and top-heavy balance are also evaluated on the implementation's own results. Holds on the executions generated.",
+        "note": "Trusted: refmodel::relround/date/dur/round. PlainDate/PlainDateTime/PlainYearMonth until/since with calendar smallest units share the machinery and are exercised by C04/C05/C18.",
+    },
+}
+
 
 NOT_CLAIMED = {}
 
